@@ -142,8 +142,9 @@ func Harness_C10_inherit() {
 	wbStation := vr.OneOf("station.wb", "", "0", "1", "2")
 	wbChild := vr.OneOf("child.wb", "", "0", "1", "2")
 	parentType := vr.OneOf("parent.type", "1", "0", "")
+	childType := vr.OneOf("child.type", "0", "", "2", "3", "4") // every kind of stop that can have a parent station
 	files["stops.txt"] = vr.File{Name: "stops.txt", Header: []string{"stop_id", "stop_name", "location_type", "parent_station", "wheelchair_boarding"},
-		Rows: [][]string{{"s1", "child", "0", "st", wbChild}, {"st", "station", parentType, "", wbStation}, {"s2", "lone", "0", "", "1"}}}
+		Rows: [][]string{{"s1", "child", childType, "st", wbChild}, {"st", "station", parentType, "", wbStation}, {"s2", "lone", "0", "", "1"}}}
 	off := hParse(files, ParseStaticOptions{InheritWheelchairBoarding: false})
 	on := hParse(files, ParseStaticOptions{InheritWheelchairBoarding: true})
 	if off == nil || on == nil || len(off.Stops) != 3 || len(on.Stops) != 3 {
